@@ -16,18 +16,40 @@ def obligations(tier):
             unwind_default=lambda p: 3 * p["F"] + 22,
             timeout=900,
             expect_witnesses=["retr", "top", "file_vanished", "retr_dot_line_and_partial_last_line", "top_cut_short", "top_0_header_only"]),
-        Obl("session", "session.c",
+    ] + [
+        Obl(name, "session.c",
             progs=[POP3D],
             repo=["scan_ulong.c", "fmt_ulong.c", "fmt_uint.c", "str_chr.c", "str_start.c", "substdio.c", "byte_copy.c",
                   "stralloc_pend.c", "stralloc_opys.c", "stralloc_opyb.c", "stralloc_cats.c", "stralloc_catb.c"],
             lib=["ideal_substdio.c", "ideal_getln.c", "arena_stralloc.c"],
             defines={"ARENA_CAP": 24, "ARENA_SLOTS": 2},
             sysrename=["_exit", "close", "unlink", "rename"],
-            grid=[{"K": k} for k in ([3] if quick else [4])],
+            grid=[{"K": k, "ONLY": v} for k in ks for v in range(10)], std_checks=std, backend="cadical",
+            # sizes 7 and 120: STAT total <= 127, 3 digits (the unwinding assertion proves it)
             unwind={"fmt_ulong": 5, "scan_ulong": 5},
             unwind_default=66,
             timeout=900,
-            expect_witnesses=["quit", "session_open", "quit_unlinks_1_renames_2", "quit_unlinks_both", "dele_rset_quit_keeps_all",
-                              "listing_skips_deleted", "retr_file_vanished", "dele_twice_refused", "dele_out_of_range_refused",
-                              "dele_zero_refused", "rset_unmarks_both", "both_marked_no_quit"]),
+            expect_witnesses=session_witnesses)
+        for (name, ks, std) in [("session_step", [1], True), ("session", [2] if quick else [2, 3], False)]
     ]
+
+QUIT, STAT, LIST, UIDL, DELE, RETR, RSET, LAST, TOP, NOOP = range(10)
+
+def session_witnesses(p):
+    k, o = p["K"], p["ONLY"]
+    w = []
+    if o == QUIT:
+        w += ["quit", "quit_unlinks_1_renames_2", "quit_unlinks_both"] + (["dele_rset_quit_keeps_all"] if k >= 3 else [])
+    else:
+        w += ["session_open"]
+    if o not in (QUIT, RSET):
+        w += ["both_marked_no_quit"]
+    if k >= 2 or o in (LIST, UIDL):
+        w += ["listing_skips_deleted"]
+    if k >= 2 or o in (RETR, TOP):
+        w += ["retr_file_vanished"]
+    if k >= 2 or o == DELE:
+        w += ["dele_twice_refused", "dele_out_of_range_refused", "dele_zero_refused"]
+    if k >= 2 or o == RSET:
+        w += ["rset_unmarks_both"]
+    return w
